@@ -209,6 +209,23 @@ static bool utf16Less(const std::string &a, const std::string &b)
     return x.size() < y.size();
 }
 
+static std::string xmlLineEnds(const std::string &t);
+// the raw forms may only be used to explain a mismatch when they differ from what was read off the wire by nothing but the
+// line-end normalisation of the reader (same fields, same number of values, each value = normalised raw value)
+static bool rawIsCrVariant(const Wire &w)
+{
+    if (w.rawForms.size() != w.forms.size() || w.forms.empty()) return false;
+    for (size_t i = 0; i < w.forms.size(); i++) {
+        auto &a = w.rawForms[i].fields; auto &b = w.forms[i].fields;
+        if (a.size() != b.size()) return false;
+        for (size_t j = 0; j < a.size(); j++) {
+            if (a[j].var != b[j].var || a[j].values.size() != b[j].values.size()) return false;
+            for (size_t k = 0; k < a[j].values.size(); k++) if (a[j].values[k] != xmlLineEnds(b[j].values[k]) && xmlLineEnds(a[j].values[k]) != b[j].values[k]) return false;
+        }
+    }
+    return true;
+}
+
 // returns false when the info set is outside the XEP's domain (FORM_TYPE without exactly one value, repeated var)
 static bool xepString(const Wire &w, Quirks q, std::string &S)
 {
@@ -230,7 +247,7 @@ static bool xepString(const Wire &w, Quirks q, std::string &S)
     for (auto &f : feats) S += f + "<";
     // 6. forms sorted by FORM_TYPE; a form without FORM_TYPE is ignored (§5.4 item 6)
     std::vector<std::pair<std::string, const WForm *>> forms;
-    for (auto &f : (q.crKept && !w.rawForms.empty() ? w.rawForms : w.forms)) {
+    for (auto &f : (q.crKept && rawIsCrVariant(w) ? w.rawForms : w.forms)) {
         const WField *ft = nullptr; int n = 0;
         std::set<std::string> vars;
         for (auto &fl : f.fields) {
@@ -318,7 +335,7 @@ static std::string xmlLineEnds(const std::string &t)
 }
 
 // what QXmppDataForm::toXml / QXmppDiscoveryIq::toXml put on the wire AS A PEER READS IT, by rule (checked against the real XML below):
-// one <value/> per list element, its text the element (line ends normalised by the reader); attributes unchanged
+// one <value/> per list element, its text the element, unchanged; attributes unchanged
 static Wire wireByRule(const InfoSet &i)
 {
     Wire w;
@@ -333,9 +350,12 @@ static Wire wireByRule(const InfoSet &i)
             else { x.isBool = true; x.values.push_back(f.vals.value(0) == QL("1") ? "1" : "0"); }
             wf.fields.push_back(x);
         }
-        w.rawForms.push_back(wf);
-        for (auto &x : wf.fields) for (auto &v : x.values) v = xmlLineEnds(v);
+        // a CR in a value is written as &#13; (repo commit "a carriage return in element text is written as a character reference"), so the
+        // reader gets every value unchanged; rawForms = the values had the CR been written literally and normalised by the reader (only used
+        // to classify a regression under the old key C20:cr-in-form-value-read-as-lf)
         w.forms.push_back(wf);
+        for (auto &x : wf.fields) for (auto &v : x.values) v = xmlLineEnds(v);
+        w.rawForms.push_back(wf);
     }
     return w;
 }
@@ -640,7 +660,7 @@ static void runCase(const InfoSet &base, Rng &rng, Gen &g, int nPerm, int nMut, 
     // the wire rule is what the library really writes (checked on a share of the cases, always when there is a form)
     if (base.hasForm || g_cases % 4 == 0) {
         Wire wx = wireFromIq(makeIq(base, int(g_cases)));
-        if (!(wx == w)) oracleFail("C20:harness-wire-rule-differs-from-toXml", enc); else oraclePass()++;
+        if (!(wx == w)) oracleFail("C20:wire-values-differ-from-hashed-values", enc); else oraclePass()++;
         stat("wire_rule_checked_against_xml");
     }
 
@@ -1200,6 +1220,9 @@ int main(int argc, char **argv)
         runCase(b1, rng, g, 2, 4, true);
         InfoSet e1; e1.hasForm = true; e1.fields << Fld { FORM_TYPE, 't', { QL("urn:t") } } << Fld { QL("b"), 't', {} };
         runCase(e1, rng, g, 2, 4, true);
+        // a CR inside a value (former finding C20:cr-in-form-value-read-as-lf): written as &#13;, read back as CR
+        InfoSet c1; c1.hasForm = true; c1.fields << Fld { FORM_TYPE, 't', { QL("urn:t") } } << Fld { QL("b"), 'l', { QL("x\ry"), QL("line 1\r\nline 2"), QL("\r") } } << Fld { QL("c"), 't', { QL("a\rb") } };
+        runCase(c1, rng, g, 2, 4, true);
         // the empty NON-NULL string: written as <value/> since repo commit 06b3045
         InfoSet e3; e3.hasForm = true; e3.fields << Fld { FORM_TYPE, 't', { QL("urn:t") } } << Fld { QL("b"), 't', { QLatin1String("") } };
         runCase(e3, rng, g, 2, 4, true);
